@@ -1159,7 +1159,7 @@ fn refresh_body() {
 }
 
 // @harness
-// @prop C08
+// @prop C08 C14
 // @tier quick
 // @timeout 900
 // @fn ZXController::refresh_memory_dependent_devices (loop structure and bank pairing; page slices cut to their first 4 bytes)
@@ -1212,7 +1212,7 @@ fn c08_snapshot_refresh_bank_pairing() {
 }
 
 // @harness
-// @prop C08
+// @prop C08 C14
 // @tier thorough
 // @timeout 3000
 // @fn ZXController::refresh_memory_dependent_devices (the real 16384-iteration loops over ZXMemory::ram_page_data)
